@@ -1,9 +1,10 @@
-// Reproductions on the UNCHANGED tree of what ./check C07 (mode taint) reports about tainted objects
+// Reproductions of what ./check C07 (mode taint) reports about tainted objects
 // (ResolverOptions.ValidateRequiredExternalFields).  Public API only; run with
 //
 //	cd /verif/harness && GOFLAGS=-mod=mod GOPROXY=off GOWORK=off go test -tags verif -count=1 -v ./c07taint/
 //
-// Each test FAILS on the unchanged tree (it asserts what the property asks for).
+// Each test asserts what the property asks for.  TestSingleEntityFetchIsTainted is a regression (repaired in loader.go,
+// commit 00d2cc7: passes); the other two FAIL on the current tree (open findings).
 package c07taint
 
 import (
@@ -115,10 +116,10 @@ func shippingDS() *subgraph {
 	}}
 }
 
-// key=taint-single-entity-fetch-ignored: a single EntityFetch selects its data with ["data","_entities","0"], so
-// getTaintedIndices resolves the error path ["_entities",0,"zip"] against the entity itself (entity.Get("0") == nil):
-// nothing is ever tainted and the dependant is sent with the failed input as null.
-func TestSingleEntityFetchIsNeverTainted(t *testing.T) {
+// taint-single-entity-fetch-ignored (repaired, 00d2cc7): a single EntityFetch selects its data with ["data","_entities","0"];
+// getTaintedIndices used to resolve the error path ["_entities",0,"zip"] against the entity itself (entity.Get("0") == nil),
+// so nothing was ever tainted and the dependant was sent with the failed input as null.
+func TestSingleEntityFetchIsTainted(t *testing.T) {
 	accounts := &subgraph{respond: func(string) string { return `{"data":{"me":{"__typename":"User","id":"2"}}}` }}
 	profile := &subgraph{respond: func(string) string {
 		return `{"data":{"_entities":[{"__typename":"User","zip":null}]},"errors":[{"message":"zip lookup timed out","path":["_entities",0,"zip"]}]}`
